@@ -4,8 +4,8 @@
 (* <<"B", ToJson([ci, log])>> for the harness (MODEL-DRIFT comparison).    *)
 EXTENDS ConcertinaImpl
 
-ASSUME \A k \in DOMAIN ConfigSeq : WellFormedCfg(ConfigSeq[k])
-ASSUME PrintT(<<"CONFIGS", Len(ConfigSeq)>>)
+ASSUME \A k \in DOMAIN Lines : WellFormedCfg(ConfigOf(k))
+ASSUME PrintT(<<"CONFIGS", Len(Lines)>>)
 
 Export == phase = "done" => PrintT(<<"B", ToJson([ci |-> ci, log |-> log])>>)
 =============================================================================
